@@ -1,5 +1,10 @@
 import OW.Proofs.HotStart
 import OW.Proofs.HotStartZip
+import OW.Proofs.HotStartLag
+import OW.Proofs.HotStartGR4J
+import OW.Proofs.HotStartStorage
+import OW.Proofs.HotStartSacramento
+import OW.Proofs.RealNum
 import OW.Kernels.Registry
 /-!
 C06 — hot-start continuity: a split run reproduces the uninterrupted run.
@@ -302,5 +307,362 @@ theorem hotstart_InstreamFineSediment_partial :
       refine ⟨_, rfl, ?_, ?_⟩ <;>
         simp only [catSeries, List.zipWith_cons_cons, List.zipWith_nil_right,
           zip5_append _ _ _ _ _ _ _ _ _ _ e1 e2 e3 e4, hcat, List.map_append]
+
+/-- Lag: the delay buffer (the state row, also when it is longer than the lag) is the whole memory; any lag ≥ 0
+(lag 0 included), parts shorter or longer than the lag. -/
+theorem hotstart_Lag : HotStart (Lag.model (α := α)) := by
+  intro p a b st n₁ n₂ o₁ o₂ hl ha hb h₁ h₂
+  unfold Lag.model at h₁ h₂ ⊢
+  simp only at h₁ h₂ ⊢
+  match p, a, h₁ with
+  | [tl], [ia], h₁ =>
+    match b, hl, h₂ with
+    | [ib], _, h₂ =>
+      simp only at h₁ h₂
+      cases hr1 : Lag.run tl ia st with
+      | error e => rw [hr1] at h₁; simp at h₁
+      | ok r₁ =>
+        rw [hr1] at h₁
+        simp only [Except.ok.injEq] at h₁
+        subst h₁
+        simp only at h₂
+        cases hr2 : Lag.run tl ib r₁.lagged with
+        | error e => rw [hr2] at h₂; simp at h₂
+        | ok r₂ =>
+          rw [hr2] at h₂
+          simp only [Except.ok.injEq] at h₂
+          subst h₂
+          simp only [catSeries, List.zipWith_cons_cons, List.zipWith_nil_right]
+          rw [OW.Proofs.Lag.run_append tl ia ib st r₁ r₂ hr1 hr2]
+          exact ⟨_, rfl, rfl, rfl⟩
+/-- the only arithmetic fact the GR4J hot start needs: the store sizes n1, n2 survive being written into the state
+row as floats and read back with `int(…)` (true in ℝ; true for doubles up to 2^53). -/
+def IntRoundTrip (α : Type) [Num α] : Prop := ∀ n : Nat, Num.toInt (Num.ofNat n : α) = (n : Int)
+
+/-- GR4J: state row [S, R, n1, n2, q1[0..n2), q9[0..n1)] (a longer row is accepted, trailing columns ignored). The
+production store, the routing store and the two unit-hydrograph delay stores are the whole memory; pack ∘ extract
+round-trips (`OW.Proofs.GR4JHot.roundtrip_GR4J`) because the stores keep their lengths n2 / n1 through the loop. -/
+theorem hotstart_GR4J (hrt : IntRoundTrip α) : HotStart (GR4J.model (α := α)) := by
+  intro p a b st n₁ n₂ o₁ o₂ hl ha hb h₁ h₂
+  unfold GR4J.model at h₁ h₂ ⊢
+  simp only at h₁ h₂ ⊢
+  match p, a, st, h₁ with
+  | [x1, x2, x3, x4], [a1, a2], s :: r :: n1f :: n2f :: rest, h₁ =>
+    match b, hl, h₂ with
+    | [b1, b2], _, h₂ =>
+      simp only [catSeries, List.zipWith_cons_cons, List.zipWith_nil_right] at h₁ h₂ ⊢
+      by_cases hn : Num.toInt n1f ≤ 0 ∨ Num.toInt n2f ≤ 0
+      · rw [if_pos hn] at h₁; simp at h₁
+      · rw [if_neg hn] at h₁ ⊢
+        by_cases hr : rest.length < (Num.toInt n1f).toNat + (Num.toInt n2f).toNat
+        · rw [if_pos hr] at h₁; simp at h₁
+        · rw [if_neg hr] at h₁ ⊢
+          simp only [Except.ok.injEq] at h₁
+          subst h₁
+          simp only at h₂
+          generalize hN1 : (Num.toInt n1f).toNat = N1 at *
+          generalize hN2 : (Num.toInt n2f).toNat = N2 at *
+          have hp1 : 0 < N1 := by omega
+          have hp2 : 0 < N2 := by omega
+          generalize hst0 : (⟨s, r, rest.take N2, (rest.drop N2).take N1⟩ : GR4J.State α) = st0 at *
+          have hl1 : st0.q1.length = N2 := by subst hst0; simp; omega
+          have hl9 : st0.q9.length = N1 := by subst hst0; simp; omega
+          generalize hf : GR4J.run x1 x2 x3 x4 N1 N2 st0 (a1.zip a2) = f at *
+          obtain ⟨lf1, lf9⟩ : f.1.q1.length = N2 ∧ f.1.q9.length = N1 := by
+            rw [← hf]; exact OW.Proofs.GR4JHot.run_len x1 x2 x3 x4 N1 N2 hp1 hp2 _ st0 hl1 hl9
+          obtain ⟨m1, m2, rest', hpk, rfl, rfl, hrl, hback⟩ := OW.Proofs.GR4JHot.roundtrip_GR4J f.1 N1 N2 lf1 lf9
+          rw [hpk] at h₂
+          simp only at h₂
+          rw [hrt N1, hrt N2] at h₂
+          have hn' : ¬ ((N1 : Int) ≤ 0 ∨ (N2 : Int) ≤ 0) := by omega
+          rw [if_neg hn'] at h₂
+          simp only [Int.toNat_natCast] at h₂
+          rw [if_neg (by omega), hback] at h₂
+          simp only [Except.ok.injEq] at h₂
+          subst h₂
+          have e1 : a1.length = a2.length := ha.eq (by simp) (by simp)
+          have hcat : GR4J.run x1 x2 x3 x4 N1 N2 st0 ((a1 ++ b1).zip (a2 ++ b2)) =
+              ((GR4J.run x1 x2 x3 x4 N1 N2 f.1 (b1.zip b2)).1, f.2 ++ (GR4J.run x1 x2 x3 x4 N1 N2 f.1 (b1.zip b2)).2) := by
+            rw [zip_append_eq _ _ _ _ e1]
+            unfold GR4J.run at hf ⊢
+            rw [scan_append, hf]
+          refine ⟨_, rfl, ?_, ?_⟩ <;>
+            simp only [catSeries, List.zipWith_cons_cons, List.zipWith_nil_right, hcat, List.map_append]
+
+/-- Storage (reservoir water balance): the kernel reads ONLY the current volume of the state row [volume, level, area]
+(level and area are recomputed from the final volume), and the volume is the whole memory of the timestep loop (each
+timestep restarts its adaptive sub-stepping from `subtimestep = Δt`). Exact: the sub-step sequence of every timestep
+is the same in the split run. Also covers the "invalid configuration" early return (zero outputs, zero states). -/
+theorem hotstart_Storage : HotStart (Storage.model (α := α)) := by
+  intro p a b st n₁ n₂ o₁ o₂ hl ha hb h₁ h₂
+  unfold Storage.model at h₁ h₂ ⊢
+  simp only at h₁ h₂ ⊢
+  match p, a, st, h₁ with
+  | deltaT :: nLVAf :: tbl, [a1, a2, a3, a4, a5, a6], [cv, lv, ar], h₁ =>
+    match b, hl, h₂ with
+    | [b1, b2, b3, b4, b5, b6], _, h₂ =>
+      simp only [catSeries, List.zipWith_cons_cons, List.zipWith_nil_right, Storage.splitTables] at h₁ h₂ ⊢
+      have e1 : a1.length = a2.length := ha.eq (by simp) (by simp)
+      have e2 : a1.length = a3.length := ha.eq (by simp) (by simp)
+      have e3 : a1.length = a4.length := ha.eq (by simp) (by simp)
+      by_cases hneg : Num.toInt nLVAf < 0
+      · rw [if_pos hneg] at h₁; simp at h₁
+      · rw [if_neg hneg] at h₁ ⊢
+        by_cases hlen : (tbl.length != 5 * (Num.toInt nLVAf).toNat) = true
+        · rw [if_pos hlen] at h₁; simp at h₁
+        · rw [if_neg hlen] at h₁ ⊢
+          generalize hm : Storage.mkTables (α := α) _ _ _ _ _ = mt at h₁ ⊢
+          cases mt with
+          | error e => simp at h₁
+          | ok t =>
+            simp only at h₁ ⊢
+            generalize hc : Storage.checkConfig (α := α) _ _ = cc at h₁ ⊢
+            cases cc with
+            | error e => simp at h₁
+            | ok cfg =>
+              cases cfg with
+              | invalid =>
+                simp only [Except.ok.injEq] at h₁
+                subst h₁
+                simp only at h₂
+                rw [if_neg hneg, if_neg hlen, hm] at h₂
+                simp only at h₂
+                rw [hc] at h₂
+                simp only [Except.ok.injEq] at h₂
+                subst h₂
+                refine ⟨_, rfl, ?_, rfl⟩
+                simp only [catSeries, List.zipWith_cons_cons, List.zipWith_nil_right, List.length_append, zeros_add]
+              | ok =>
+                simp only at h₁ ⊢
+                cases hr1 : Storage.run t false Storage.fuelOuter Storage.fuelInner deltaT cv (zip4 a1 a2 a3 a4) with
+                | error e => rw [hr1] at h₁; simp at h₁
+                | ok r₁ =>
+                  rw [hr1] at h₁
+                  simp only [Except.ok.injEq] at h₁
+                  subst h₁
+                  simp only at h₂
+                  rw [if_neg hneg, if_neg hlen, hm] at h₂
+                  simp only at h₂
+                  rw [hc] at h₂
+                  simp only at h₂
+                  cases hr2 : Storage.run t false Storage.fuelOuter Storage.fuelInner deltaT r₁.volume (zip4 b1 b2 b3 b4) with
+                  | error e => rw [hr2] at h₂; simp at h₂
+                  | ok r₂ =>
+                    rw [hr2] at h₂
+                    simp only [Except.ok.injEq] at h₂
+                    subst h₂
+                    obtain ⟨r, hr, ho, hv, hlv, har⟩ := OW.Proofs.StorageHot.run_append t _ _ deltaT cv _ _ r₁ r₂ hr1 hr2
+                    rw [zip4_append _ _ _ _ _ _ _ _ e1 e2 e3, hr]
+                    refine ⟨_, rfl, ?_, ?_⟩
+                    · simp only [catSeries, List.zipWith_cons_cons, List.zipWith_nil_right, ho, List.map_append]
+                    · simp only [hv, hlv, har]
+/-- StorageRouting: one loop iteration reads the carried state only through the previous index flow `qi` and the
+storage (the carried outflow and inflow are written to the state row but never read). -/
+theorem storageRouting_step_reads (su : StorageRouting.Setup α) (k area dead dt qi s o i o' i' : α) (x : α × α × α × α) :
+    StorageRouting.step su k area dead dt (.ok ⟨qi, o, s, i⟩) x = StorageRouting.step su k area dead dt (.ok ⟨qi, o', s, i'⟩) x := by
+  simp only [StorageRouting.step, StorageRouting.calcOutflow]
+
+/-- StorageRouting, exact split law of the model (and of the code): the uninterrupted run over `xs ++ ys` continues from
+the FULL loop state `(qi, outflow, storage, inflow)` left by `xs`, where `qi` — the index flow found by the root finder in
+the last step, the seed of the next step's search — is a local of `storageRouting` that is NOT in the state row. -/
+theorem storageRouting_split (bias k x area dead dt s : α) (xs ys : List (α × α × α × α)) :
+    StorageRouting.run bias k x area dead dt s (xs ++ ys) =
+      ((scan (StorageRouting.step (StorageRouting.setup bias k x dt) k area dead dt)
+          (StorageRouting.run bias k x area dead dt s xs).1 ys).1,
+       (StorageRouting.run bias k x area dead dt s xs).2 ++
+        (scan (StorageRouting.step (StorageRouting.setup bias k x dt) k area dead dt)
+          (StorageRouting.run bias k x area dead dt s xs).1 ys).2) := by
+  unfold StorageRouting.run; rw [scan_append]
+
+/-- Full statement (FALSE for the model and the code): `HotStart StorageRouting.model`. A second call starts its first
+root search from `qi = 0.0` instead of the index flow of the previous step (`storageRouting_split`), which changes which
+exit of `calcOutflow` is taken (`prev-qi` vs `mid-qi`/`root`): the two results both satisfy the mass-balance tolerance
+(1e-3 m³) but are not bit-identical — this is the "to within the solver's own mass-balance tolerance" clause of the
+property. Also, an EMPTY second part resets the two dead columns (inflow, outflow) of the state row to 0.
+Proved: exact hot-start continuity for every split at which the carried index flow is the one a fresh call starts
+from (`f.qi = 0.0`, e.g. after a zero-flow step with bias 0) and whose second part has at least one step. -/
+theorem hotstart_StorageRouting_partial
+    (p : List α) (a b : List (List α)) (st : List α) (n₁ n₂ : Nat) (o₁ o₂ : KOut α)
+    (hl : a.length = b.length) (ha : AllLen n₁ a) (hb : AllLen n₂ b) (hn₂ : 0 < n₂)
+    (h₁ : (StorageRouting.model (α := α)).run p a st = .ok o₁)
+    (h₂ : (StorageRouting.model (α := α)).run p b o₁.states = .ok o₂)
+    (hqi : ∀ bias k x area dead dt s pi po a1 a2 a3 a4 f outs, p = [bias, k, x, area, dead, dt] → st = [s, pi, po] →
+      a = [a1, a2, a3, a4] → StorageRouting.run bias k x area dead dt s (zip4 a1 a2 a3 a4) = (.ok f, outs) → f.qi = 0.0) :
+    ∃ o, (StorageRouting.model (α := α)).run p (catSeries a b) st = .ok o ∧
+      o.outputs = catSeries o₁.outputs o₂.outputs ∧ o.states = o₂.states := by
+  unfold StorageRouting.model at h₁ h₂ ⊢
+  simp only at h₁ h₂ ⊢
+  match p, a, st, h₁ with
+  | [bias, k, x, area, dead, dt], [a1, a2, a3, a4], [s, pi, po], h₁ =>
+    match b, hl, h₂ with
+    | [b1, b2, b3, b4], _, h₂ =>
+      simp only [catSeries, List.zipWith_cons_cons, List.zipWith_nil_right] at h₁ h₂ ⊢
+      have e1 : a1.length = a2.length := ha.eq (by simp) (by simp)
+      have e2 : a1.length = a3.length := ha.eq (by simp) (by simp)
+      have e3 : a1.length = a4.length := ha.eq (by simp) (by simp)
+      have hq := hqi bias k x area dead dt s pi po a1 a2 a3 a4
+      rw [zip4_append _ _ _ _ _ _ _ _ e1 e2 e3, storageRouting_split]
+      generalize hr1 : StorageRouting.run bias k x area dead dt s (zip4 a1 a2 a3 a4) = r1 at h₁ hq ⊢
+      obtain ⟨f1, outs1⟩ := r1
+      cases f1 with
+      | error e => simp at h₁
+      | ok f =>
+        simp only [Except.ok.injEq] at h₁
+        subst h₁
+        have hq0 : f.qi = 0.0 := hq f outs1 rfl rfl rfl rfl
+        simp only at h₂
+        -- the second part is not empty
+        have hb1 : b1.length = n₂ := hb b1 (by simp)
+        have hb2 : b2.length = n₂ := hb b2 (by simp)
+        have hb3 : b3.length = n₂ := hb b3 (by simp)
+        have hb4 : b4.length = n₂ := hb b4 (by simp)
+        obtain ⟨y1, t1, rfl⟩ := List.exists_cons_of_length_pos (l := b1) (by omega)
+        obtain ⟨y2, t2, rfl⟩ := List.exists_cons_of_length_pos (l := b2) (by omega)
+        obtain ⟨y3, t3, rfl⟩ := List.exists_cons_of_length_pos (l := b3) (by omega)
+        obtain ⟨y4, t4, rfl⟩ := List.exists_cons_of_length_pos (l := b4) (by omega)
+        simp only [zip4] at h₂ ⊢
+        have hstep : StorageRouting.step (StorageRouting.setup bias k x dt) k area dead dt (.ok f) (y1, y2, y3, y4) =
+            StorageRouting.step (StorageRouting.setup bias k x dt) k area dead dt (.ok ⟨0.0, 0.0, f.storage, 0.0⟩) (y1, y2, y3, y4) := by
+          obtain ⟨q, o, s', i⟩ := f
+          simp only at hq0
+          subst hq0
+          exact storageRouting_step_reads _ _ _ _ _ _ _ _ _ _ _ _
+        unfold StorageRouting.run at h₂
+        simp only [scan] at h₂ ⊢
+        rw [hstep]
+        generalize hr2 : scan (StorageRouting.step (StorageRouting.setup bias k x dt) k area dead dt)
+          (StorageRouting.step (StorageRouting.setup bias k x dt) k area dead dt (.ok ⟨0.0, 0.0, f.storage, 0.0⟩) (y1, y2, y3, y4)).1
+          (zip4 t1 t2 t3 t4) = r2 at h₂ ⊢
+        obtain ⟨f2, outs2⟩ := r2
+        cases f2 with
+        | error e => simp at h₂
+        | ok g =>
+          simp only [Except.ok.injEq] at h₂
+          subst h₂
+          refine ⟨_, rfl, ?_, rfl⟩
+          simp only [catSeries, List.zipWith_cons_cons, List.zipWith_nil_right, List.map_append, List.map_cons]
+/-- side condition for InstreamDissolvedNutrientDecay: decay disabled (`doDecay < 0.5`) -/
+def DecayDisabled (p _st _s : List α) : Prop := ∃ doDecay rest, p = doDecay :: rest ∧ doDecay < (0.5 : α)
+
+/-- Full statement (FALSE for the model and the code; known finding KF-C06-InstreamDissolvedNutrientDecay-prevVolume,
+counter-example `hotstart_InstreamDissolvedNutrientDecay_counterexample` below): `HotStart InstreamDissolvedNutrient.model`.
+With decay enabled, `prevVolume` (the reach volume of the previous step, averaged with the current one to get the water
+depth) is re-seeded from the first step of every call and is not in the state row. Proved: decay disabled
+(`doDecay < 0.5`), where the kernel is the lumped constituent routing and the stored mass is the whole memory. -/
+theorem hotstart_InstreamDissolvedNutrientDecay_partial :
+    HotStartWhen (InstreamDissolvedNutrient.model (α := α)) DecayDisabled := by
+  intro p a b st n₁ n₂ o₁ o₂ hl ha hb h₁ h₂ hc
+  unfold InstreamDissolvedNutrient.model at h₁ h₂ ⊢
+  simp only at h₁ h₂ ⊢
+  match p, a, st, h₁ with
+  | [dd, psl, lh, lw, ll, uv, dur], [a1, a2, a3, a4, a5], [sm], h₁ =>
+    match b, hl, h₂ with
+    | [b1, b2, b3, b4, b5], _, h₂ =>
+      simp only [catSeries, List.zipWith_cons_cons, List.zipWith_nil_right] at h₁ h₂ ⊢
+      have hdd : dd < (0.5 : α) := by
+        obtain ⟨d, r, hp, hd⟩ := hc
+        simp only [List.cons.injEq] at hp
+        rw [hp.1]; exact hd
+      have e1 : a1.length = a2.length := ha.eq (by simp) (by simp)
+      have e2 : a1.length = a4.length := ha.eq (by simp) (by simp)
+      have e3 : a1.length = a3.length := ha.eq (by simp) (by simp)
+      cases a3 with
+      | nil => simp at h₁
+      | cons v0 va =>
+        simp only [if_pos hdd, Except.ok.injEq] at h₁
+        subst h₁
+        simp only at h₂
+        cases b3 with
+        | nil => simp at h₂
+        | cons w0 wb =>
+          simp only [if_pos hdd, Except.ok.injEq] at h₂
+          subst h₂
+          simp only [List.cons_append, if_pos hdd]
+          refine ⟨_, rfl, ?_, ?_⟩ <;>
+            simp only [catSeries, List.zipWith_cons_cons, List.zipWith_nil_right, LumpedConstituent.run,
+              ← List.cons_append, zip4_append _ _ _ _ _ _ _ _ e1 e2 e3, map_append_scan, scan_append_fst,
+              List.length_append, zeros_add]
+/-! ### instances at ℝ of the two statements that need an arithmetic law -/
+
+theorem intRoundTrip_real : IntRoundTrip ℝ := by
+  intro n
+  show (if (0:ℝ) ≤ (n:ℝ) then ⌊(n:ℝ)⌋ else ⌈(n:ℝ)⌉) = (n:Int)
+  rw [if_pos (Nat.cast_nonneg n)]
+  exact Int.floor_natCast n
+
+theorem hotstart_GR4J_real : HotStart (GR4J.model (α := ℝ)) := hotstart_GR4J intRoundTrip_real
+
+theorem hotstart_StorageTrapAll_real : HotStart (StorageTrapAll.model (α := ℝ)) :=
+  hotstart_StorageTrapAll_of_add_zero (fun y => by norm_num)
+
+/-! ### Sacramento (ℝ) -/
+section Sacramento
+open OW.C12
+
+/-- side condition for Sacramento: the unit hydrograph has only its first ordinate (the flow of a step leaves in that
+step), and the divisors `uh1` (sum of the ordinates) and `1 + side` are not zero -/
+def SacramentoNoSpread (p _st _s : List ℝ) : Prop :=
+  ∃ lzpk lzsk uzk uztwm uzfwm lztwm lzfsm lzfpm pfree rexp zperc side ssout pctim adimp sarva rserv uh1 : ℝ,
+    p = [lzpk, lzsk, uzk, uztwm, uzfwm, lztwm, lzfsm, lzfpm, pfree, rexp, zperc, side, ssout, pctim, adimp, sarva, rserv,
+      uh1, 0, 0, 0, 0] ∧ uh1 ≠ 0 ∧ (1.0 : ℝ) + side ≠ 0
+
+/-- Full statement (FALSE for the model and the code; known finding KF-C06-Sacramento-uh-buffer): `HotStart Sacramento.model`.
+The unit-hydrograph delay buffer `qq` (the surface flow of the previous four steps still to be routed) is a local of the
+kernel, zero at the start of every call and not in the state row: the flow in transit at a split point is lost.
+Proved (ℝ): hot-start continuity when the unit hydrograph does not spread the flow over steps (uh2 = … = uh5 = 0), for
+all other parameters, all series and every split point. Two things are used: the outputs then do not depend on `qq`
+(`OW.Proofs.SacHot.scan_nospread`), and the scaled lower-zone contents `alzfsc = lzfsc·(1+side)` re-derived from the state
+row at the start of a call equal the carried ones (exactly in ℝ; to one rounding of `x/(1+side)·(1+side)` in floating point). -/
+theorem hotstart_Sacramento_partial : HotStartWhen (Sacramento.model (α := ℝ)) SacramentoNoSpread := by
+  intro p a b st n₁ n₂ o₁ o₂ hl ha hb h₁ h₂ hc
+  obtain ⟨lzpk, lzsk, uzk, uztwm, uzfwm, lztwm, lzfsm, lzfpm, pfree, rexp, zperc, side, ssout, pctim, adimp, sarva, rserv,
+    uh1, rfl, huh, hside⟩ := hc
+  unfold Sacramento.model at h₁ h₂ ⊢
+  simp only at h₁ h₂ ⊢
+  match a, st, h₁ with
+  | [a1, a2], [s0, s1, s2, s3, s4, s5], h₁ =>
+    match b, hl, h₂ with
+    | [b1, b2], _, h₂ =>
+      simp only [catSeries, List.zipWith_cons_cons, List.zipWith_nil_right, Except.ok.injEq] at h₁ h₂ ⊢
+      subst h₁
+      simp only [Except.ok.injEq] at h₂
+      subst h₂
+      have e1 : a1.length = a2.length := ha.eq (by simp) (by simp)
+      generalize hP : (⟨lzpk, lzsk, uzk, uztwm, uzfwm, lztwm, lzfsm, lzfpm, pfree, rexp, zperc, side, ssout, pctim, adimp,
+        sarva, rserv, uh1, 0, 0, 0, 0⟩ : Sacramento.Params ℝ) = P
+      have hPside : P.side = side := by rw [← hP]
+      have hdro : (Sacramento.consts P).dro = [uh1 / (0.0 + uh1 + 0 + 0 + 0 + 0), 0, 0, 0, 0] := by
+        rw [← hP]
+        simp only [Sacramento.consts, Sacramento.makeUnitHydrograph, N.div, zero_div]
+      generalize hst0 : (⟨s0, s1, s2, s3, s4, s5, s4 * (1.0 + side), s3 * (1.0 + side), zeros 5⟩ : Sacramento.State ℝ) = st0
+      have hinv0 : OW.Proofs.SacHot.Inv P.side st0 := by rw [← hst0, hPside]; exact ⟨rfl, rfl⟩
+      have hq0 : st0.qq.length = 5 := by rw [← hst0]; simp [zeros]
+      rw [zip_append_eq _ _ _ _ e1]
+      unfold Sacramento.run
+      rw [scan_append]
+      generalize hf : scan (Sacramento.step P (Sacramento.consts P)) st0 (a1.zip a2) = f
+      have hinvf : OW.Proofs.SacHot.Inv P.side f.1 := by
+        rw [← hf]; exact OW.Proofs.SacHot.scan_inv P _ (by rw [hPside]; exact hside) _ _ hinv0
+      have hqf : f.1.qq.length = 5 := by
+        rw [← hf]
+        exact (OW.Proofs.SacHot.scan_nospread P _ _ hdro (a1.zip a2) st0 st0 rfl hq0 hq0).2.2
+      obtain ⟨k1, k2, k3⟩ := OW.Proofs.SacHot.scan_nospread P _ _ hdro (b1.zip b2) f.1
+        ⟨f.1.uztwc, f.1.uzfwc, f.1.lztwc, f.1.lzfpc, f.1.lzfsc, f.1.adimc, f.1.lzfsc * (1.0 + side),
+          f.1.lzfpc * (1.0 + side), zeros 5⟩
+        (by
+          obtain ⟨⟨f1, f2, f3, f4, f5, f6, f7, f8, f9⟩, fo⟩ := f
+          obtain ⟨i1, i2⟩ := hinvf
+          simp only [hPside] at i1 i2
+          simp only [OW.Proofs.SacHot.noQ, Sacramento.State.mk.injEq, and_true, true_and]
+          exact ⟨i1, i2⟩)
+        hqf (by simp [zeros])
+      refine ⟨_, rfl, ?_, ?_⟩
+      · simp only [List.map_append, k1]
+        rfl
+      · have := k2
+        simp only [OW.Proofs.SacHot.noQ, Sacramento.State.mk.injEq, and_true] at this
+        obtain ⟨t1, t2, t3, t4, t5, t6, _, _⟩ := this
+        simp only [t1, t2, t3, t4, t5, t6]
+end Sacramento
 
 end OW.Props.C06
